@@ -117,6 +117,742 @@ def c01(ck):
                        "golden word lists equal the pinned release (re-established exhaustively by check C07)"]
 
 
+
+# ----------------------------------------------------------------------------------------------- helpers
+def header_strsize(ck):
+    """POLYSEED_STR_SIZE of the header under test, as the compiled driver reports it."""
+    import json
+    tr = ck.work.record("plain", [])
+    return json.loads(open(tr).readline())["strsize"]
+
+
+def lists_cfg(ck, strsize):
+    p = ck.work.path("TheoremsLists_%d.cfg" % strsize)
+    with open(p, "w") as f:
+        f.write("SPECIFICATION Spec\nCONSTANT StrSize = %d\nINVARIANT Holds\nCHECK_DEADLOCK FALSE\n" % strsize)
+    return p
+
+
+def chunked(xs, n):
+    for i in range(0, len(xs), n):
+        yield xs[i:i + n]
+
+
+# ----------------------------------------------------------------------------------------------- C02
+def c02(ck):
+    rng = Rng(ck.seed)
+    quick = ck.tier == "quick"
+    for fam in ("gfmulx", "gfsingle", "gfswap", "gfunique"):
+        ck.model("Theorems.tla", "Theorems_%s.cfg" % fam)
+    # (a) the arithmetic core of the implementation, exhaustively
+    lines = ["mul2all"]
+    for pos in range(16):
+        ds = range(1, 2048) if (not quick or pos in (0, 15)) else sorted(set([1, 2, 3, 1023, 1024, 1025, 2047] + [rng.below(2047) + 1 for _ in range(120)]))
+        for d in ds:
+            c = [0] * 16
+            c[pos] = d
+            lines.append("polyeval " + " ".join(map(str, c)))
+    for _ in range(300 if quick else 3000):
+        lines.append("polyeval " + " ".join(str(rng.below(2048)) for _ in range(16)))
+    for i, ch in enumerate(chunked(lines, 1500)):
+        ck.add(Exec("gf-core-%d" % i, ch))
+    # (b) substitutions and swaps through the public API
+    for lid in LANG_IDS:
+        for rep in range(1 if quick else 3):
+            coin = rng.choice(COINS_BOUNDARY)
+            idx = rand_idx(rng, features=rng.choice([0, 16]), coin=coin)
+            s = Script()
+            s.add("enable", 7)
+            for pos in range(16):
+                cands = {idx[pos] ^ 1, idx[pos] ^ 1024, (idx[pos] + 1) % 2048, (idx[pos] - 1) % 2048}
+                if quick:
+                    cands |= {rng.below(2048) for _ in range(6)}
+                else:
+                    cands |= {rng.below(2048) for _ in range(40)}
+                cands.discard(idx[pos])
+                for v in sorted(cands):
+                    w = list(idx)
+                    w[pos] = v
+                    r = s.string(codec.phrase(lid, w))
+                    s.add("decodex", r, coin, lid, 1)
+                    s.add("free", 1)
+                    if v % 4 == 0:
+                        s.add("decode", r, coin, 1)
+                        s.add("free", 1)
+            ck.add(Exec("subst-%s-%d" % (lid, rep), s.lines))
+            s = Script()
+            s.add("enable", 7)
+            pairs = [(i, j) for i in range(16) for j in range(i + 1, 16)]
+            if quick and lid not in ("en", "ko"):
+                rng.shuffle(pairs)
+                pairs = pairs[:24]
+            for i, j in pairs:
+                w = list(idx)
+                w[i], w[j] = w[j], w[i]
+                r = s.string(codec.phrase(lid, w))
+                s.add("decodex", r, coin, lid, 1)
+                s.add("free", 1)
+            # exchanging equal words changes nothing
+            w = list(idx)
+            w[9] = w[4]
+            w = codec.fix_check(w, coin)
+            if w[0] != w[4]:
+                r = s.string(codec.phrase(lid, w))
+                w2 = list(w)
+                w2[4], w2[9] = w2[9], w2[4]
+                s.add("decodex", r, coin, lid, 1)
+                s.add("free", 1)
+            ck.add(Exec("swap-%s-%d" % (lid, rep), s.lines))
+    # erasure recovery: exactly one word validates at a missing position
+    for rep in range(1 if quick else 6):
+        lid = "en" if rep == 0 else rng.choice(LANG_IDS)
+        idx = rand_idx(rng)
+        pos = rng.below(16)
+        for part, vs in enumerate(chunked(list(range(2048)), 512)):
+            s = Script()
+            s.add("enable", 7)
+            for v in vs:
+                w = list(idx)
+                w[pos] = v
+                s.add("decodex", s.string(codec.phrase(lid, w)), 0, lid, 1)
+                s.add("free", 1)
+            ck.add(Exec("erasure-%s-p%d-%d-%d" % (lid, pos, rep, part), s.lines))
+    # (c) serialised seeds with an altered check value
+    sec = rand_secret(rng)
+    good = codec.words_of(sec, 321, 0)[0]
+    ds = range(1, 2048) if not quick else range(1, 2048, 8)
+    for part, dd in enumerate(chunked(list(ds), 512)):
+        s = Script()
+        for d in dd:
+            s.add("load", s.buf(codec.image(sec, 321, 0, good ^ d)), 1)
+            s.add("free", 1)
+        ck.add(Exec("load-check-%d" % part, s.lines))
+    ck.validate()
+    ck.exhaustive = not quick
+    ck.assumptions += ["the field lemmas are exhaustive over GF(2048) x 16 positions x 120 position pairs; "
+                       "gf_elem_mul2 / gf_poly_eval are observed directly (static inline in src/gf.h) and again through the public API"]
+
+
+# ----------------------------------------------------------------------------------------------- C03
+def unit_seed(k):
+    sec, bday, feats = bytearray(19), 0, 0
+    if k < 144:
+        sec[k // 8] = 1 << (7 - k % 8)
+    elif k < 150:
+        sec[18] = 1 << (149 - k)
+    elif k < 160:
+        bday = 1 << (9 - (k - 150))
+    else:
+        feats = 1 << (4 - (k - 160))
+    return bytes(sec), bday, feats
+
+
+def c03(ck):
+    rng = Rng(ck.seed)
+    quick = ck.tier == "quick"
+    ck.model("Theorems.tla", "Theorems_layout.cfg")
+    ck.model("Theorems.tla", "Theorems_roundtrip.cfg")
+    ks = [k for k in range(165) if k != 161]          # 161 is the reserved feature bit: the library cannot hold it
+    for k in ks:
+        sec, bday, feats = unit_seed(k)
+        for enc in (0, 16):
+            s = Script()
+            s.make_seed(0, sec, bday, feats | enc if not (feats & 16) else feats, rng, enable=7)
+            langs = LANG_IDS if not quick else [LANG_IDS[k % 10], LANG_IDS[(k // 10 + 5) % 10]]
+            for lid in langs:
+                for coin in ([0, 2047] if quick else [0, 1, 1024, 2047]):
+                    s.add("encode", 0, lid, coin, 1)
+            s.add("store", 0, 1)
+            ck.add(Exec("unit-%d-%s" % (k, "enc" if enc else "plain"), s.lines))
+    pairs = [(i, j) for i in ks for j in ks if i < j]
+    if quick:
+        rng.shuffle(pairs)
+        pairs = pairs[:600]
+    for n, grp in enumerate(chunked(pairs, 40)):
+        s = Script()
+        for (i, j) in grp:
+            a, b = unit_seed(i), unit_seed(j)
+            sec = bytes(x ^ y for x, y in zip(a[0], b[0]))
+            s.make_seed(0, sec, a[1] ^ b[1], a[2] ^ b[2], rng, enable=7)
+            s.add("encode", 0, LANG_IDS[(i + j) % 10], rng.choice(COINS_BOUNDARY), 1)
+            s.add("free", 0)
+        ck.add(Exec("pairs-%d" % n, s.lines))
+    # histories must not matter: the same seed reached by load and by decode encodes identically
+    for n in range(10 if quick else 100):
+        s = Script()
+        f, m = feature_choices(rng)
+        s.make_seed(0, rand_secret(rng), rng.below(1024), f, rng, enable=7)
+        s.add("store", 0, 1)
+        s.add("load", 1, 1)
+        lid, coin = rng.choice(LANG_IDS), rng.below(2048)
+        s.add("encode", 0, lid, coin, 1)
+        s.add("encode", 1, lid, coin, 2)
+        s.add("decodex", 1, coin, lid, 2)
+        s.add("encode", 2, rng.choice(LANG_IDS), coin, 3)
+        ck.add(Exec("history-%d" % n, s.lines))
+    ck.validate()
+    ck.exhaustive = not quick
+    ck.assumptions += ["the 165 unit seeds and their pairs determine a bit-linear packing; linearity is TLC-checked on the specification "
+                       "and every unit seed (except the reserved feature bit, which the library refuses to hold) is encoded by the implementation"]
+
+
+# ----------------------------------------------------------------------------------------------- C04
+KEY_SIZES = [0, 1, 16, 32, 33, 64, 1000]
+
+
+def c04(ck):
+    rng = Rng(ck.seed)
+    quick = ck.tier == "quick"
+    ck.model("Theorems.tla", "Theorems_kdf.cfg")
+    for n in range(24 if quick else 300):
+        s = Script()
+        f, m = feature_choices(rng)
+        bday = rng.choice(MONTHS_BOUNDARY + [600, 777]) if n % 2 else rng.below(1024)
+        s.make_seed(0, rand_secret(rng) if n > 3 else gen.boundary_secrets(rng, 0)[150 + n % 8], bday, f, rng, enable=7)
+        for size in KEY_SIZES:
+            s.add("env", "mask=" + hx(rng.bytes(64)))
+            s.add("keygen", 0, rng.choice(COINS_BOUNDARY) if size % 2 else rng.below(2048), size)
+        # the same seed by other paths
+        lid = rng.choice(LANG_IDS)
+        coin = rng.below(2048)
+        s.add("encode", 0, lid, coin, 1)
+        s.add("decodex", 1, coin, lid, 1)
+        s.add("keygen", 1, coin, 32)
+        s.add("store", 0, 1)
+        s.add("load", 1, 2)
+        s.add("keygen", 2, coin, 32)
+        s.add("env", "mask=" + hx(rng.bytes(32)))
+        pw = s.string(b"hunter2")
+        s.add("crypt", 2, pw)
+        s.add("keygen", 2, coin, 32)
+        s.add("crypt", 2, pw)
+        s.add("keygen", 2, coin, 32)
+        ck.add(Exec("keygen-%d" % n, s.lines))
+    ck.validate()
+
+
+# ----------------------------------------------------------------------------------------------- C05
+def c05(ck):
+    rng = Rng(ck.seed)
+    quick = ck.tier == "quick"
+    ck.model("Theorems.tla", "Theorems_coinpairs.cfg")
+    if not quick:
+        ck.model("Theorems.tla", "Theorems_coinpairsfull.cfg", timeout=3000)
+    step = 8 if quick else 1
+    for lid in (["en", "ko"] if quick else LANG_IDS):
+        # row: one A, every B
+        a = rng.below(2048)
+        f, m = feature_choices(rng)
+        for part, bs in enumerate(chunked(list(range(rng.below(step), 2048, step)) + [a], 300)):
+            s = Script()
+            s.make_seed(0, rand_secret(rng), rng.below(1024), f, rng, enable=7)
+            s.add("encode", 0, lid, a, 1)
+            for b in bs:
+                s.add("decodex", 1, b, lid, 1)
+                s.add("free", 1)
+            ck.add(Exec("row-%s-%d" % (lid, part), s.lines))
+        # column: every A, one B
+        b = rng.below(2048)
+        for part, as_ in enumerate(chunked(list(range(rng.below(step), 2048, step)) + [b], 200)):
+            s = Script()
+            s.make_seed(0, rand_secret(rng), rng.below(1024), f, rng, enable=7)
+            for a2 in as_:
+                s.add("encode", 0, lid, a2, 1)
+                s.add("decodex", 1, b, lid, 1)
+                s.add("free", 1)
+            ck.add(Exec("col-%s-%d" % (lid, part), s.lines))
+    for lid in LANG_IDS:
+        s = Script()
+        f, m = feature_choices(rng)
+        s.make_seed(0, rand_secret(rng), rng.below(1024), f, rng, enable=7)
+        for _ in range(24 if quick else 200):
+            a, b = rng.choice(COINS_BOUNDARY + [rng.below(2048)]), rng.choice(COINS_BOUNDARY + [rng.below(2048)])
+            s.add("encode", 0, lid, a, 1)
+            s.add("decodex", 1, b, lid, 1)
+            s.add("free", 1)
+            s.add("decode", 1, b, 1)
+            s.add("free", 1)
+        ck.add(Exec("pairs-%s" % lid, s.lines))
+    ck.validate()
+    ck.exhaustive = not quick
+
+
+# ----------------------------------------------------------------------------------------------- C06
+def c06(ck):
+    rng = Rng(ck.seed)
+    quick = ck.tier == "quick"
+    ck.model("Theorems.tla", "Theorems_storage.cfg")
+    bases = [(bytes([255] * 18 + [63]), 682, 21), (unit_seed(3)[0], 1, 0)]
+    if not quick:
+        bases += [(rand_secret(rng), rng.below(1024), 16), (rand_secret(rng), rng.below(1024), 7)]
+    stride = 16 if quick else 1
+    n = 0
+    for bi, (sec, bday, feats) in enumerate(bases):
+        img = codec.image(sec, bday, feats)
+        bufs = []
+        for pos in range(8):
+            for v in range(256):
+                b = bytearray(img); b[pos] = v; bufs.append(bytes(b))
+        off = rng.below(stride)
+        for v in list(range(off, 65536, stride)) + [0, 0x7fff, 0x8000, 0xffff, 0x4000 | bday, 0x2000 | bday]:
+            b = bytearray(img); b[8] = v & 255; b[9] = v >> 8; bufs.append(bytes(b))
+            b = bytearray(img); b[30] = v & 255; b[31] = v >> 8; bufs.append(bytes(b))
+        for v in range(256):
+            b = bytearray(img); b[28] = v; bufs.append(bytes(b))
+            b = bytearray(img); b[29] = v; bufs.append(bytes(b))
+        # non-canonical in one field AND carrying the check value that matches their content
+        for v in (0x40, 0x80, 0xC0, 0xFF):
+            s2 = bytearray(sec); s2[18] = (s2[18] & 63) | (v & 0xC0)
+            chk = codec.words_of(bytes(s2[:18]) + bytes([s2[18] & 63]), bday, feats)[0]
+            bufs.append(codec.image(bytes(s2), bday, feats, chk))
+        for f in range(32):     # every feature value, with matching and with off-by-one check value
+            chk = codec.words_of(sec, bday, f)[0]
+            bufs.append(codec.image(sec, bday, f, chk))
+            bufs.append(codec.image(sec, bday, f, chk ^ 1))
+        for _ in range(200 if quick else 3000):     # multi-bit mutations
+            b = bytearray(img)
+            for _ in range(2 + rng.below(4)):
+                b[rng.below(32)] ^= 1 << rng.below(8)
+            bufs.append(bytes(b))
+        for _ in range(100 if quick else 2000):
+            bufs.append(rng.bytes(32))
+        for grp in chunked(bufs, 400):
+            s = Script()
+            s.add("enable", rng.choice([0, 5, 7, 7]))
+            for b in grp:
+                r = s.buf(b)
+                s.add("load", r, 1)
+                s.add("store", 1, s.breg())
+                s.add("free", 1)
+            ck.add(Exec("load-%d-%d" % (bi, n), s.lines))
+            n += 1
+    # round trip of structured seeds
+    for grp in chunked([k for k in range(165) if k != 161], 30):
+        s = Script()
+        for k in grp:
+            sec, bday, feats = unit_seed(k)
+            s.make_seed(0, sec, bday, feats, rng, enable=7)
+            s.add("store", 0, 1)
+            s.add("load", 1, 1)
+            s.add("free", 1)
+            s.add("free", 0)
+        ck.add(Exec("roundtrip-%d" % grp[0], s.lines))
+    ck.validate()
+    ck.exhaustive = not quick
+    ck.assumptions += ["acceptance over all 2^256 buffers is explored by the field-wise exhaustive neighbourhood of valid images "
+                       "(every value of every non-secret field), constructed vectors that are non-canonical yet carry a matching check value, "
+                       "multi-bit mutations and random buffers"]
+
+
+# ----------------------------------------------------------------------------------------------- C07
+def c07(ck):
+    rng = Rng(ck.seed)
+    quick = ck.tier == "quick"
+    strsize = header_strsize(ck)
+    ck.model("TheoremsLists.tla", lists_cfg(ck, strsize))
+    # direct observation of the registry and of every word table; every word through the search
+    ck.add(Exec("registry", ["numlangs"] + ["listwords " + lid for lid in LANG_IDS]))
+    for lid in LANG_IDS:
+        L = codec.lang(lid)
+        for part, grp in enumerate(chunked(list(range(2048)), 512)):
+            ck.add(Exec("find-%s-%d" % (lid, part), ["find %s %s" % (lid, hx(L["wb"][i])) for i in grp]))
+    # the debug self-test of the library, run with the real normaliser (sortedness, NFKD, separators)
+    ck.add(Exec("selftest-dbg", ["inject AAAAAAAA", "numlangs"], variant="dbg"))
+    # through the public API: every index at every phrase position
+    #   word 2: all coins; words 7-16 and 1: ten secret bits + birthday bit; words 3-6: feature bits
+    for lid in LANG_IDS:
+        step = 8 if quick else 1
+        off = rng.below(step)
+        sec = rand_secret(rng)
+        for part, coins in enumerate(chunked(list(range(off, 2048, step)), 256)):
+            s = Script()
+            s.make_seed(0, sec, 555, 0, rng, enable=7)
+            for coin in coins:
+                s.add("encode", 0, lid, coin, 1)
+                s.add("decodex", 1, coin, lid, 1)
+                s.add("free", 1)
+            ck.add(Exec("coin-sweep-%s-%d" % (lid, part), s.lines))
+        # sweep of every index over the data words: word p takes value v for all v (p = 3..16 by seed choice)
+        vals = list(range(off, 2048, step * (4 if quick else 1)))
+        for part, grp in enumerate(chunked(vals, 128)):
+            s = Script()
+            for v in grp:
+                w = [0] + [v if (p >= 3 or v % 2 == 0) else v ^ 1 for p in range(1, 16)]
+                w[2] &= ~1
+                w = codec.fix_check(w)
+                seed_script(s, 0, w, rng)
+                s.add("encode", 0, lid, 0, 1)
+                s.add("decodex", 1, 0, lid, 1)
+                s.add("free", 1)
+                s.add("free", 0)
+            ck.add(Exec("index-sweep-%s-%d" % (lid, part), s.lines))
+    ck.validate()
+    ck.exhaustive = True
+    ck.assumptions += ["golden snapshot /verif/golden/lists.json (SHA-256 verified by setup) is the publication at the pinned release",
+                       "clause 'no word is a prefix of another' is decided as: no word of four or more letters is a prefix of another, "
+                       "and every acceptable token resolves to exactly one word (the literal reading is false for BIP-39 en/es three-letter words such as act/action)"]
+
+
+# ----------------------------------------------------------------------------------------------- C08
+def chars_of(word_bytes):
+    """NFKD word -> list of (letter, marks) as str."""
+    import unicodedata
+    out = []
+    for ch in word_bytes.decode("utf-8"):
+        if unicodedata.combining(ch) and out:
+            out[-1][1] += ch
+        else:
+            out.append([ch, ""])
+    return out
+
+
+def variants_of(chars, n, rng=None, all_subsets=True):
+    """Tokens for the first n characters: every subset of accents kept or dropped (decomposed bytes)."""
+    pref = chars[:n]
+    acc = [i for i, c in enumerate(pref) if c[1]]
+    out = []
+    for m in range(1 << len(acc)):
+        keep = {acc[i] for i in range(len(acc)) if (m >> i) & 1}
+        out.append("".join(c[0] + (c[1] if i in keep else "") for i, c in enumerate(pref)).encode("utf-8"))
+    return out
+
+
+def c08(ck):
+    import unicodedata
+    rng = Rng(ck.seed)
+    quick = ck.tier == "quick"
+    strsize = header_strsize(ck)
+    ck.model("TheoremsLists.tla", lists_cfg(ck, strsize))
+    toks = {lid: [] for lid in LANG_IDS}
+    for lid in LANG_IDS:
+        L = codec.lang(lid)
+        for i in range(2048):
+            w = L["wb"][i]
+            cs = chars_of(w)
+            accented = any(c[1] for c in cs)
+            if L["prefix"]:
+                if quick and not accented and (i + ck.seed) % 8:
+                    continue
+                t = set()
+                for n in range(1, len(cs) + 1):
+                    t.update(variants_of(cs, n))
+                    base = "".join(c[0] for c in cs[:n]).encode()
+                    t.add(base + b"x")                       # continues with a letter the word may not have
+                    t.add(base + b"\xcc\x81")                # an accent the word does not have there
+                t.add(w + b"a")
+                t.add(w + w[-1:])
+                if len(cs) > 4:
+                    t.add("".join(c[0] + c[1] for c in cs[:3]).encode() + cs[4][0].encode())   # skips a letter
+                toks[lid] += sorted(t)
+            else:
+                if quick and (i + ck.seed) % 8:
+                    continue
+                t = {w, w + "あ".encode(), w + w[-3:]}
+                for n in range(1, len(cs)):
+                    t.add("".join(c[0] + c[1] for c in cs[:n]).encode())
+                toks[lid] += sorted(t)
+    for lid in LANG_IDS:
+        for part, grp in enumerate(chunked(toks[lid], 2000)):
+            ck.add(Exec("tokens-%s-%d" % (lid, part), ["find %s %s" % (lid, hx(t)) for t in grp if 0 < len(t) < 200]))
+    # whole phrases through the real normaliser: an independent variant per position
+    for lid in LANG_IDS:
+        L = codec.lang(lid)
+        for n in range(12 if quick else 300):
+            idx = rand_idx(rng, features=rng.choice([0, 16]))
+            parts, legal = [], True
+            bad_pos = rng.below(16) if n % 3 == 2 else -1
+            for p, i in enumerate(idx):
+                cs = chars_of(L["wb"][i])
+                if L["prefix"]:
+                    k = len(cs) if (len(cs) <= 4 or rng.chance(1, 3)) else 4 + rng.below(len(cs) - 3)
+                    tok = rng.choice(variants_of(cs, k)).decode("utf-8")
+                    if p == bad_pos:
+                        how = rng.below(3)
+                        if how == 0 and len(cs) > 3:
+                            tok = "".join(c[0] for c in cs[:3])
+                        elif how == 1:
+                            tok = tok + "q"
+                        else:
+                            tok = "".join(c[0] for c in cs) + "ing"
+                else:
+                    tok = L["wb"][i].decode("utf-8")
+                    if p == bad_pos:
+                        tok = tok[:-1] if len(tok) > 1 else tok + tok
+                parts.append(unicodedata.normalize(rng.choice(["NFC", "NFD"]), tok))
+            sep = "　" if (lid == "jp" and rng.chance(1, 2)) else " "
+            s = Script()
+            s.add("enable", 7)
+            r = s.string(sep.join(parts).encode("utf-8"))
+            s.add("decodex", r, 0, lid, 1)
+            s.add("decode", r, 0, 2)
+            ck.add(Exec("phrase-%s-%d" % (lid, n), s.lines))
+    ck.validate()
+    ck.exhaustive = not quick
+    ck.assumptions += ["tokens are given to the internal search already decomposed; whole phrases go through utf8proc NFKD in composed and decomposed spelling"]
+
+
+# ----------------------------------------------------------------------------------------------- C10
+def c10(ck):
+    rng = Rng(ck.seed)
+    quick = ck.tier == "quick"
+    ck.model("Theorems.tla", "Theorems_features.cfg")
+    sec = rand_secret(rng)
+    for m in range(8):
+        arg = m if m % 2 == 0 else m + rng.choice([8, 0xFFFFFFF8, 64])
+        for grp_no, fs in enumerate(chunked(list(range(32)), 8)):
+            s = Script()
+            # enabling is not cumulative: the last call wins
+            for prev in [rng.below(8) for _ in range(rng.below(3))]:
+                s.add("enable", prev)
+            s.add("enable", arg)
+            for f in fs:
+                bday = rng.below(1024)
+                idx = codec.words_of(sec, bday, f, 0)
+                b = s.buf(codec.image(sec, bday, f))
+                s.add("load", b, 1)
+                s.add("feat", 1, rng.choice([7, 1, 2, 4, 15, 0xFFFFFFFF, 8, 16, 24]))
+                s.add("isenc", 1)
+                s.add("free", 1)
+                r = s.string(codec.phrase("en", idx))
+                s.add("decode", r, 0, 1)
+                s.add("decodex", r, 0, "en", 2)
+                r2 = s.string(codec.phrase("jp", idx))
+                s.add("decodex", r2, 0, "jp", 3)
+                # accepted ones survive phrase, storage and encryption round trips
+                s.add("encode", 1, "es", 3, s.sreg())
+                s.add("decodex", s.nstr, 3, "es", 4)
+                s.add("env", "mask=" + hx(rng.bytes(32)))
+                s.add("crypt", 2, s.string(b"pw"))
+                s.add("store", 2, s.breg())
+                s.add("load", s.nbuf, 5)
+                for h in (1, 2, 3, 4, 5):
+                    s.add("free", h)
+            ck.add(Exec("gate-m%d-%d" % (m, grp_no), s.lines))
+        s = Script()
+        s.add("enable", arg)
+        for u in list(range(16)) + [0xFFFFFFF8 + m, 0x80000000 | m, 24 + (m ^ 5)]:
+            s.add("env", "rand=" + hx(rand_secret(rng)))
+            s.add("create", 1, u)
+            for q in (0, 1, 2, 4, 7, 15, 0xFFFFFFFF):
+                s.add("feat", 1, q)
+            s.add("isenc", 1)
+            s.add("free", 1)
+        ck.add(Exec("create-m%d" % m, s.lines))
+    ck.validate()
+    ck.exhaustive = True
+
+
+# ----------------------------------------------------------------------------------------------- C11
+def c11(ck):
+    rng = Rng(ck.seed)
+    quick = ck.tier == "quick"
+    ck.model("Theorems.tla", "Theorems_birthday.cfg")
+    clocks = []
+    for k in range(1025):
+        for d in (-1, 0, 1):
+            clocks.append(EPOCH + k * STEP + d)
+    clocks += [0, 1, EPOCH - 1, EPOCH, EPOCH + 1, 2 ** 32 - 1, 2 ** 32, 2 ** 32 + 1, 2 ** 63, 2 ** 64 - 2, 2 ** 64 - 1,
+               EPOCH + 1024 * STEP - 1, 2 ** 31 - 1, 2 ** 31]
+    for _ in range(300 if quick else 50000):
+        clocks.append(rng.u64() if rng.chance(1, 2) else EPOCH + rng.below(1100 * STEP))
+    for part, grp in enumerate(chunked(clocks, 128)):
+        s = Script()
+        libc = part % 5 == 4
+        if libc:
+            s.add("inject", "AAAAANAA")          # clock entry NULL: libc time() must be used
+        for t in grp:
+            s.add("env", "rand=" + hx(rand_secret(rng)), ("libctime=%d" if libc else "time=%d") % t)
+            s.add("create", 1, 0)
+            s.add("bday", 1)
+            s.add("free", 1)
+        ck.add(Exec("clock-%d" % part, s.lines))
+    # the birthday survives every transformation
+    for n in range(40 if quick else 600):
+        s = Script()
+        t = rng.choice(clocks)
+        s.add("enable", 7)
+        s.add("env", "rand=" + hx(rand_secret(rng)), "time=%d" % t)
+        s.add("create", 1, rng.below(8))
+        lid, coin = rng.choice(LANG_IDS), rng.below(2048)
+        s.add("encode", 1, lid, coin, 1)
+        s.add("decodex", 1, coin, lid, 2)
+        s.add("bday", 2)
+        s.add("store", 2, 1)
+        s.add("load", 1, 3)
+        s.add("bday", 3)
+        s.add("env", "mask=" + hx(rng.bytes(32)))
+        pw = s.string(b"p")
+        s.add("crypt", 3, pw)
+        s.add("bday", 3)
+        s.add("crypt", 3, pw)
+        s.add("bday", 3)
+        ck.add(Exec("survive-%d" % n, s.lines))
+    ck.validate()
+    ck.exhaustive = True
+    ck.assumptions += ["the quantiser is monotone and piecewise constant: both sides of each of the 1024 month boundaries, the range ends and the special clocks decide all 2^64 values"]
+
+
+# ----------------------------------------------------------------------------------------------- C12
+def biased_mask(rng, k):
+    m = bytearray(rng.bytes(32))
+    if k % 6 == 0:
+        m = bytearray(32)
+    elif k % 6 == 1:
+        m = bytearray([255] * 32)
+    m[18] = (m[18] & 0x3F) | ((k % 4) << 6)       # all four values of the two dropped bits
+    return bytes(m)
+
+
+def c12(ck):
+    import json
+    rng = Rng(ck.seed)
+    quick = ck.tier == "quick"
+    ck.model("Theorems.tla", "Theorems_crypt.cfg")
+    pool = json.load(open(os.path.join(codec.GOLDEN, "passwords.json")))["pool"]
+    pws = []
+    for p in pool:
+        pws.append(bytes(p["nfc"]))
+        pws.append(bytes(p["nfd"]))
+    pws += [b"a" * 30, b"x" * 542, b"x" * 543, b"y" * 544, b"z" * 700, ("ü" * 100).encode()]
+    k = 0
+    for n in range(30 if quick else 400):
+        s = Script()
+        f = rng.choice([0, 5, 7, 2])
+        sec = bytearray(rand_secret(rng))
+        sec[18] = (sec[18] & 0x0F) | ((n % 4) << 4)
+        s.make_seed(0, bytes(sec), rng.below(1024), f, rng, enable=7)
+        pw1 = pws[n % len(pws)]
+        pw2 = rng.choice(pws)
+        for step in range(1 + rng.below(4)):
+            s.add("env", "mask=" + hx(biased_mask(rng, k)))
+            k += 1
+            r = s.string(pw1 if step % 2 == 0 or rng.chance(1, 2) else pw2)
+            s.add("crypt", 0, r)
+            if rng.chance(1, 2):
+                s.add("crypt", 0, r)            # same password, same mask: must restore bit for bit
+                s.add("crypt", 0, r)
+            s.add("isenc", 0)
+            s.add("store", 0, 1)
+            s.add("load", 1, 1)
+            for lid in (rng.choice(LANG_IDS), rng.choice(LANG_IDS)):
+                coin = rng.below(2048)
+                s.add("encode", 0, lid, coin, 1)
+                s.add("decodex", 1, coin, lid, 2)
+                s.add("free", 2)
+            s.add("free", 1)
+        ck.add(Exec("crypt-%d" % n, s.lines))
+    # canonically equivalent spellings give the same KDF password
+    for i, p in enumerate(pool):
+        s = Script()
+        s.make_seed(0, rand_secret(rng), 100, 0, rng, enable=0)
+        s.add("env", "mask=" + hx(biased_mask(rng, i)))
+        s.add("crypt", 0, s.string(bytes(p["nfc"])))
+        s.add("crypt", 0, s.string(bytes(p["nfd"])))
+        s.add("isenc", 0)
+        ck.add(Exec("spelling-%d" % i, s.lines))
+    ck.validate()
+    ck.assumptions += ["passwords are decided for NFKD forms shorter than the phrase buffer (by the API's own types); longer ones are cut, "
+                       "which the specification models explicitly (AsciiCut / the normaliser's bound)",
+                       "utf8proc NFKD agrees with Python unicodedata on the golden password pool (checked as an environment assumption on every run)"]
+
+
+# ----------------------------------------------------------------------------------------------- C17
+def c17(ck):
+    rng = Rng(ck.seed)
+    quick = ck.tier == "quick"
+    strsize = header_strsize(ck)
+    ck.extra["POLYSEED_STR_SIZE"] = strsize
+    ck.model("TheoremsLists.tla", lists_cfg(ck, strsize))
+    # extremal and near-extremal witnesses, under AddressSanitizer
+    maxima = {}
+    for lid in LANG_IDS:
+        L = codec.lang(lid)
+        order = sorted(range(2048), key=lambda i: (-len(L["wb"][i]), i))
+        orderc = sorted(range(2048), key=lambda i: (-len(L["wcb"][i]), i))
+        maxima[lid] = dict(decomposed=16 * len(L["wb"][order[0]]) + 15 * len(bytes(L["sep"])),
+                           composed=16 * len(L["wcb"][orderc[0]]) + 15 * len(bytes(L["sepC"])))
+        for k in range(6 if quick else 50):
+            src = order if k % 2 == 0 else orderc
+            top = 1 + k * 2
+            w = [0] + [src[rng.below(top)] for _ in range(15)]
+            w[2] &= ~1
+            w = codec.fix_check(w)
+            s = Script()
+            seed_script(s, 0, w, rng)
+            s.add("encode", 0, lid, 0, 1)
+            s.add("decodex", 1, 0, lid, 1)
+            s.add("decode", 1, 0, 2)
+            # the decomposed spelling of the same phrase must be accepted untruncated too
+            s.add("decodex", s.string(codec.phrase(lid, w, composed=False, sep=b" ")), 0, lid, 3)
+            ck.add(Exec("witness-%s-%d" % (lid, k), s.lines, variant="san"))
+            ck.add(Exec("witness-plain-%s-%d" % (lid, k), s.lines, variant="plain"))
+    ck.extra["upper_bounds_per_language"] = maxima
+    ck.validate()
+    ck.exhaustive = True
+    ck.assumptions += ["the maxima are sums of per-position maxima over the golden lists (exact, finite); the code's lists equal the golden lists (check C07)",
+                       "the overrun verdict on witnesses is AddressSanitizer's"]
+
+
+# ----------------------------------------------------------------------------------------------- C19
+def c19(ck):
+    import unicodedata
+    rng = Rng(ck.seed)
+    quick = ck.tier == "quick"
+    execs = []
+    for lid in LANG_IDS:
+        L = codec.lang(lid)
+        for n in range(4 if quick else 40):
+            s = Script()
+            f = rng.choice([0, 16, 5])
+            s.make_seed(0, rand_secret(rng), rng.below(1024), f, rng, enable=7)
+            coin = rng.choice(COINS_BOUNDARY)
+            s.add("encode", 0, lid, coin, 1)
+            s.add("decode", 1, coin, 1)
+            s.add("decodex", 1, coin, lid, 2)
+            s.add("store", 2, 1)
+            s.add("keygen", 2, coin, 32)
+            idx = rand_idx(rng, coin=coin)
+            forms = [codec.phrase(lid, idx, composed=True), codec.phrase(lid, idx, composed=False),
+                     codec.phrase(lid, idx, composed=False, sep=b" "), codec.phrase(lid, idx, composed=True, sep="　".encode())]
+            if L["prefix"]:
+                parts = []
+                for i in idx:
+                    cs = chars_of(L["wb"][i])
+                    k = len(cs) if len(cs) <= 4 else 4 + rng.below(len(cs) - 3)
+                    parts.append(unicodedata.normalize(rng.choice(["NFC", "NFD"]), rng.choice(variants_of(cs, k)).decode("utf-8")))
+                forms.append(" ".join(parts).encode("utf-8"))
+                forms.append(b" ".join(bytes(b for b in L["wb"][i] if b < 128) for i in idx))      # unaccented
+            for fm in forms:
+                r = s.string(fm)
+                s.add("decode", r, coin, 3)
+                s.add("decodex", r, coin, lid, 4)
+                s.add("free", 3)
+                s.add("free", 4)
+            for pw in ("pässwörd", "contraseña", "パスワード　密碼", "암호문", "mot de passe très sûr"):
+                s.add("env", "mask=" + hx(rng.bytes(32)))
+                s.add("crypt", 0, s.string(unicodedata.normalize(rng.choice(["NFC", "NFD"]), pw).encode("utf-8")))
+            execs.append(("lang-%s-%d" % (lid, n), s.lines))
+        toks = []
+        for i in range(ck.seed % 16, 2048, 16 if quick else 2):
+            w = L["wb"][i]
+            cs = chars_of(w)
+            toks.append(w)
+            if L["prefix"]:
+                for k in range(3, len(cs) + 1):
+                    toks += variants_of(cs, k)
+            toks.append(w + b"\xcc\x81")
+        execs.append(("tokens-%s" % lid, ["find %s %s" % (lid, hx(t)) for t in toks]))
+    execs.append(("selftest", ["inject AAAAAAAA", "numlangs"]))
+    for variant in ("schar", "uchar", "uchar_dbg", "dbg"):
+        for name, lines in execs:
+            if variant.endswith("dbg") and not (name == "selftest" or name.endswith("-0")):
+                continue
+            ck.add(Exec("%s-%s" % (variant, name), lines, variant=variant))
+    ck.validate()
+    ck.extra["builds"] = ["-fsigned-char", "-funsigned-char", "-funsigned-char with assertions", "assertions (default char)"]
+    ck.assumptions += ["both signedness settings are judged against the one byte-level specification (which never mentions char), "
+                       "so equal verdicts on the same script mean equal API results"]
+
 # ----------------------------------------------------------------------------------------------- C16
 def exit_path_scripts(rng, tag):
     """One execution per API function and exit path (success and every error status)."""
@@ -232,4 +968,4 @@ def c16(ck):
     ck.extra["builds"] = variants
 
 
-CHECKS = {"C01": c01, "C16": c16}
+CHECKS = {"C01": c01, "C02": c02, "C03": c03, "C04": c04, "C05": c05, "C06": c06, "C07": c07, "C08": c08, "C10": c10, "C11": c11, "C12": c12, "C16": c16, "C17": c17, "C19": c19}
